@@ -302,7 +302,7 @@ func c11NormalizeExhaustive(ctx *core.Ctx) {
 			}
 		}
 	}
-	// the known crash of DESIGN §10 #2: an empty `pid:` passes the schema and reaches n.(string)
+	// DESIGN §10 #2 (repaired in /repo): an empty `pid:` passes the schema; it must normalise without a panic
 	c11Add(ctx, "c11.normalize", "nz-null-pid", m{"name": "proj", "services": m{"a": m{"image": "i", "pid": nil}}}, nil)
 }
 
